@@ -4,7 +4,9 @@ from asyncs import AsyncRun
 from session import Session, ServerDied
 
 LEVEL = 'model_checking'
-RULE = ('TLC checks conservation, FIFO service, no leftover registration, nobody stranded and time-outs on the bounded '
+RULE = ('TLC checks Conservation / NoLeftover / FifoQueues / NoneStranded on the implementation-shaped model of the mechanism (spec/impl/ImplBlocking.tla: '
+        'registry queues, wake queue, the four phases of an event-loop pass, the serve loop; the pinned design is kept behind three switches and yields the '
+        'stranded-waiter and leftover-registration schedules); TLC checks conservation, FIFO service, no leftover registration, nobody stranded and time-outs on the bounded '
         'reference instance MC_Blocking (3 clients, 2 keys, pushes of 1-2 elements, single/multi-key BLPOP/BRPOP, pops, '
         'time-outs, disconnects); directed schedules (the four classes found with the implementation-shaped prototype, '
         'plus pipelining behind a blocking pop, disconnect while blocked, cross-database, MULTI) and seeded random async '
@@ -246,6 +248,9 @@ def run_schedule(ctx, srv, name, steps, tr):
 
 def run(ctx):
     ctx.model_check('MC_Blocking', 'MC_C13' if ctx.quick else 'MC_C13_full', workers=12, timeout=2400)
+    # the mechanism as coded (registry queues, wake queue, the phases of one event-loop pass, the serve loop of wake_client):
+    # every interleaving of a few clients' sends, closes and clock ticks with the loop's phases
+    ctx.model_check('ImplBlocking', 'MC_Blocking_fixed_quick' if ctx.quick else 'MC_Blocking_fixed', workers=12, timeout=2400, subdir='impl')
     srv = ctx.new_server()
     n = 0
     for name, steps in directed():
